@@ -6,6 +6,8 @@ C19 driver.  Case lines (shared with harness/c19/c19.c), one real call of the co
   wnew <w> hold|run | wstate <w> | wrelease <w> | wstep <w> | wquit <w> | wstop <w> | wjoin <w> <ms> | wdestroy <w>
   tinit | tstart <ms> | tstop | tactive | tsleep <ms> | tticks | tafter | tcleanup
   mt <kind> <n>*        real multi-thread run, deterministic verdict line
+  hbrace <ms>           (TSan build only) the real heartbeat_timer_callback on the real timer thread against the
+                        real call_heart_beat on this thread
 
 `model` prints the events of the model, `judge` parses the implementation's output lines back into events and
 applies the specification oracle `judgeEv`.
@@ -46,6 +48,7 @@ def parseCmd (line : String) : Option Cmd :=
   | ["tafter"] => some .tafter
   | ["tcleanup"] => some .tcleanup
   | "mt" :: kind :: args => do some (.mt kind (← args.mapM (·.toNat?)))
+  | ["hbrace", ms] => do some (.hbrace (← ms.toNat?))
   | _ => none
 
 def parseItem (s : String) : Option Item :=
@@ -105,6 +108,8 @@ def parseEv (line : String) : Option Ev :=
   | ["tcleanup"] => some .tcleanup
   | "mt" :: kind :: "ok" :: rest => some (.mt kind true (String.intercalate " " rest))
   | "mt" :: kind :: "bad" :: rest => some (.mt kind false (String.intercalate " " rest))
+  | ["hbrace", ms, "done"] => do some (.hbrace (← ms.toNat?) true)
+  | ["hbrace", ms, "no-tick"] => do some (.hbrace (← ms.toNat?) false)
   | "race" :: rest => some (.race (String.intercalate " " rest))
   | "skip" :: rest => some (.skip (String.intercalate " " rest))
   | _ => none
